@@ -382,7 +382,46 @@ func c18DataSwitch(p *Prog, r *Report) {
 			return true
 		})
 		if len(roleVar) != 2 {
-			r.Undecided("R7d", "model.FilterType.Data|literal", p.Pos(fd.Pos()), "FilterData literal with Selector and Elements taken from local variables not found")
+			// the result may be filled field by field: result.Selector = … / result.Elements = …
+			nAssign := 0
+			var stack []ast.Node
+			ast.Inspect(fd.Body, func(n ast.Node) bool {
+				if n == nil {
+					stack = stack[:len(stack)-1]
+					return true
+				}
+				stack = append(stack, n)
+				as, ok := n.(*ast.AssignStmt)
+				if !ok {
+					return true
+				}
+				for _, lhs := range as.Lhs {
+					se, ok := lhs.(*ast.SelectorExpr)
+					if !ok {
+						continue
+					}
+					nt := namedOf(info.TypeOf(se.X))
+					if nt == nil || nt.Obj().Name() != "FilterData" {
+						continue
+					}
+					role := ""
+					switch se.Sel.Name {
+					case "Selector":
+						role = "selector"
+					case "Elements":
+						role = "elements"
+					default:
+						continue
+					}
+					nAssign++
+					cond := enclosingConstCond(info, stack)
+					r.Check("R7d", "model.FilterType.Data|assign:"+role, cond == role, p.Pos(as.Pos()), fmt.Sprintf("field %s of the result is assigned under condition constant %q", se.Sel.Name, cond))
+				}
+				return true
+			})
+			if nAssign < 2 {
+				r.Undecided("R7d", "model.FilterType.Data|literal", p.Pos(fd.Pos()), "neither a FilterData literal with Selector and Elements taken from local variables nor assignments to both fields of a FilterData result found")
+			}
 		} else {
 			// every assignment to a role variable (other than its declaration) sits in a case/if comparing with the matching constant
 			nAssign := 0
